@@ -60,6 +60,11 @@ def fn_results(summary):
             prev = out.get(name)
             ok = f.get("success", False) and (prev[0] if prev else True)
             out[name] = (ok, f.get("time", 0) + (prev[1] if prev else 0), f.get("rlimit", 0) + (prev[2] if prev else 0))
+    # an `impl` for a type that lives in a module of the generated file is reported as `module::Type::fn`: also offer the two-segment name the units use
+    for name in list(out):
+        segs = name.split("::")
+        if len(segs) > 2 and "::".join(segs[-2:]) not in out:
+            out["::".join(segs[-2:])] = out[name]
     return out
 
 
@@ -88,11 +93,14 @@ def locate(G, diag):
             unit, lab, src = G.unit_of[ln - 1], G.label_of[ln - 1], G.src_of[ln - 1]
             # multi-line clause: the label sits on the last line of the clause
             if lab is None and unit and src is None:
-                for k in range(ln - 1, min(ln + 6, len(G.lines))):
+                depth = 0
+                for k in range(ln - 1, min(ln + 14, len(G.lines))):
                     if G.label_of[k]:
                         lab = G.label_of[k]
                         break
-                    if G.lines[k].rstrip().endswith(","):
+                    code = G.lines[k].split("//")[0]
+                    depth += sum(code.count(c) for c in "([{") - sum(code.count(c) for c in ")]}")
+                    if code.rstrip().endswith(",") and depth <= 0:      # the clause ended without a label
                         break
             cand = (unit, lab, src, ln)
             if lab and (best is None or best[1] is None):
